@@ -26,22 +26,39 @@ class CallMixin:
             return
         for s, fv in self.ev(node.func, st):
             # arguments
-            args, kwargs, star = [], {}, None
-            for a in node.args:
-                if isinstance(a, ast.Starred):
-                    s, v = self.ev1(a.value, s)
-                    star = v
-                    continue
-                s, v = self.ev1(a, s)
-                args.append(v)
-            for kw in node.keywords:
-                if kw.arg is None:
-                    raise Unsupported("**kwargs call")
-                s, v = self.ev1(kw.value, s)
-                kwargs[kw.arg] = v
+            if any(isinstance(a, ast.Starred) for a in node.args):
+                args, kwargs, star = [], {}, None
+                for a in node.args:
+                    if isinstance(a, ast.Starred):
+                        s, v = self.ev1(a.value, s)
+                        star = v
+                        continue
+                    s, v = self.ev1(a, s)
+                    args.append(v)
+                for kw in node.keywords:
+                    s, v = self.ev1(kw.value, s)
+                    kwargs[kw.arg] = v
+                kwargs['*'] = star
+                for s2, v in self.call(s, fv, args, kwargs, node):
+                    yield s2, v
+                continue
+            if any(kw.arg is None for kw in node.keywords):
+                raise Unsupported("**kwargs call")
+            nodes = list(node.args) + [kw.value for kw in node.keywords]
+            for s1, vals in self.ev_seq(nodes, s):
+                args = vals[:len(node.args)]
+                kwargs = {kw.arg: v for kw, v in zip(node.keywords, vals[len(node.args):])}
+                for s2, v in self.call(s1, fv, args, kwargs, node):
+                    if self.top_spec is not None and self.top_spec.ghost_at:
+                        self.run_ghost(s2, getattr(node, '_site', 'call'), extra={'result': v})
+                    yield s2, v
+            continue
             if star is not None:
                 kwargs['*'] = star
-            yield from self.call(s, fv, args, kwargs, node)
+            for s2, v in self.call(s, fv, args, kwargs, node):
+                if self.top_spec is not None and self.top_spec.ghost_at:
+                    self.run_ghost(s2, getattr(node, '_site', 'call'), extra={'result': v})
+                yield s2, v
 
     def call(self, st, fv, args, kwargs, node=None):
         if not isinstance(fv, VFunc):
